@@ -9,6 +9,7 @@ gain selection) is evaluated on the implementation's own observations with exact
 import json, os, math, struct
 from fractions import Fraction
 import framework as F
+import cov_regions_util
 import floatbase
 
 PROP = "C19"
@@ -26,6 +27,8 @@ SIGNED_BITS = [8, 16, 24, 32, 48, 64, 8, 16, 32, 32, 64, 64]  # bits of Sample::
 ENV_FMTS = [12, 13, 1, 6, 0, 7]
 TIMES = [0.0, -0.0, 0.5, 1.0, 10.0, 1e4, 3.4e7]
 DETS = ["full", "pos", "neg", "rms"]
+CTORS = ["named_constructor", "peak_from_rectifier", "Detector::new(Peak::from(R))"]
+CTORS_RMS = ["Detector::rms", "Detector::new(Rms::new(w))", "Detector::new(Rms::new(w))"]
 
 
 def is_signed(f):
@@ -73,6 +76,8 @@ def coq_op(o):
         return f"EFrame {F.zlist(o[1:])}"
     if o[0] == "x":
         return "EPull"
+    if o[0] == "k":
+        return "EClone"
     if o[0] == "p":
         return f"EParts {F.zlist(o[1:])}"
     return f"{'EAttack' if o[0] == 'a' else 'ERelease'} {F.zlit(o[1])}"
@@ -86,9 +91,10 @@ def build(item, ops=None):
         it["line"] = f"R {it['fmt']} {it['nch']} ; " + " , ".join(" ".join(map(str, o)) for o in it["ops"])
         it["coq"] = f"RCase {it['fmt']} {it['nch']} {F.zlistlist(it['ops'])}"
     else:
-        head = f"E {it['fmt']} {it['nch']} {it['det']} {it['win']} {it['attack']} {it['release']} {it['mode']}"
+        it.setdefault("ctor", 0)
+        head = f"E {it['fmt']} {it['nch']} {it['det']} {it['win']} {it['attack']} {it['release']} {it['mode']} {it['ctor']}"
         it["line"] = head + " ; " + " , ".join(" ".join(map(str, o)) for o in it["ops"])
-        it["coq"] = (f"ECase {it['fmt']} {it['nch']} {it['det']} {it['win']} {it['attack']} {it['release']} {it['mode']} "
+        it["coq"] = (f"ECase {it['fmt']} {it['nch']} {it['det']} {it['win']} {it['attack']} {it['release']} {it['mode']} {it['ctor']} "
                      + "[" + "; ".join(coq_op(o) for o in it["ops"]) + "]")
     return it
 
@@ -156,7 +162,7 @@ def pick_time(r):
     if k < 7:
         return f32b(r.choice(TIMES))
     if k < 9:
-        return f32b(to32(r.choice([0.25, 2.0, 3.0, 7.5, 44.1, 100.0, 441.0, 4410.0, 1e-3, 1e6, 1e-30])))
+        return f32b(to32(r.choice([0.25, 2.0, 3.0, 7.5, 44.1, 100.0, 441.0, 4410.0, 1e-3, 1e6, 1e-30, 1e-45, float('inf')])))
     return f32b(to32((r.below(100000) + 1) / 100.0))
 
 
@@ -227,8 +233,15 @@ def gen_env(rng, tier):
             ops += [["x"]] * r.range(1, 6)
         if r.chance(1, 4):
             ops.append(["p"] + gen_history(r, fmt, max(1, nch), 1)[0])
+        # round 3 (coverage closing): every way of constructing the detector (named constructor,
+        # peak_from_rectifier, Detector::new(Peak::from(R))) x every detector kind; derive(Clone) mid-history
+        rk = r.fork("clone")
+        if rk.chance(1, 3):
+            last = len(ops) - (1 if ops[-1][0] == "p" else 0)
+            for _ in range(rk.range(1, 2)):
+                ops.insert(rk.range(1, last), ["k"])
         items.append(build(dict(kind="E", fmt=fmt, nch=nch, det=det, win=win, attack=pick_time(r), release=pick_time(r),
-                                mode=mode, ops=ops)))
+                                mode=mode, ctor=k % 3, ops=ops)))
     # the known class K2: integer format, some channel at the minimum amplitude
     n_k2 = 12 if tier == "quick" else 60
     for k in range(n_k2):
@@ -239,7 +252,7 @@ def gen_env(rng, tier):
         nch = r.choice([1, 2, 3])
         frames = gen_history(r, fmt, nch, r.choice([6, 12]), k2=True)
         items.append(build(dict(kind="E", fmt=fmt, nch=nch, det=det, win=3 if det == 3 else 0, attack=pick_time(r),
-                                release=pick_time(r), mode=r.below(2), ops=[["f"] + fr for fr in frames])))
+                                release=pick_time(r), mode=r.below(2), ctor=(k // 2) % 3, ops=[["f"] + fr for fr in frames])))
     return items
 
 
@@ -273,10 +286,13 @@ def gen_exhaust(rng, tier):
                 tail = [["x"]] * r.range(8, 24)
                 if r.chance(1, 2):
                     tail.insert(r.range(1, len(tail) - 1), [r.choice(["a", "r"]), r.choice(slow + [f32b(0.0)])])
+                rk = r.fork("clone")
+                if rk.chance(1, 2):   # clone of an adaptor whose source is already exhausted
+                    tail.insert(rk.range(1, len(tail) - 1), ["k"])
                 ops += tail
                 ops.append(["p"] + gen_history(r, fmt, ne, 1)[0])
                 items.append(build(dict(kind="E", fmt=fmt, nch=nch, det=det, win=r.choice([1, 2, 4]) if det == 3 else 0,
-                                        attack=attack, release=release, mode=mode, ops=ops)))
+                                        attack=attack, release=release, mode=mode, ctor=(k + rep_i) % 3, ops=ops)))
     return items
 
 
@@ -380,6 +396,11 @@ def env_verdict(it, obs, stats):
             break
         ob = obs[oi]
         oi += 1
+        if o[0] == "k":
+            if ob != [26]:
+                probs.append(("clone_observation", ob))
+                break
+            continue
         if o[0] in ("a", "r"):
             if ob[0] != 22 or ob[1] != ob[3] or ob[2] != ob[4]:
                 probs.append(("gain_observation", ob))
@@ -512,7 +533,7 @@ def load_corpus():
     return items
 
 
-CASE_KEYS = ("kind", "fmt", "nch", "det", "win", "attack", "release", "mode", "ops")
+CASE_KEYS = ("kind", "fmt", "nch", "det", "win", "attack", "release", "mode", "ctor", "ops")
 
 
 def main(rep, tier, seed):
@@ -545,7 +566,7 @@ def main(rep, tier, seed):
         rep.violation("correspondence_error_" + name.replace("/", "_"), {"kind": "correspondence could not be evaluated", "where": name, "log": msg}, no_input=True)
     known = F.known_findings(PROP)
     k2_listed = any(e.get("id") == "K2" and e.get("kind") == "known" for e in known)
-    stats, hist = {}, {}
+    stats, hist, ctor_hist = {}, {}, {}
     nontriv, k2_hits, verdict_bad = set(), [], []
     rect_evals = 0
     if not errors:
@@ -575,6 +596,10 @@ def main(rep, tier, seed):
                 stats["histories_past_exhaustion"] = stats.get("histories_past_exhaustion", 0) + 1
             if any(o[0] == "p" for o in it["ops"]):
                 stats["histories_with_into_parts"] = stats.get("histories_with_into_parts", 0) + 1
+            if any(o[0] == "k" for o in it["ops"]):
+                stats["histories_with_clone"] = stats.get("histories_with_clone", 0) + 1
+            ck = f"{DETS[it['det']]}:{CTORS[it.get('ctor', 0)] if it['det'] != 3 else CTORS_RMS[it.get('ctor', 0)]}"
+            ctor_hist[ck] = ctor_hist.get(ck, 0) + 1
             if (flags.get("rising") and flags.get("falling")) or flags.get("past_end") or any(o[0] in ("a", "r") for o in it["ops"]) or 6 <= it["fmt"] < 12:
                 nontriv.add(it["line"])
     # K2: listed -> KNOWN-FINDING line; not listed -> violation
@@ -622,9 +647,12 @@ def main(rep, tier, seed):
             "zero_gain_steps": stats.get("zero_gain_steps", 0), "k2_class_inputs_panicking": len(k2_hits),
             "adaptor_histories_pulled_past_exhaustion": stats.get("histories_past_exhaustion", 0),
             "histories_with_into_parts": stats.get("histories_with_into_parts", 0),
+            "histories_with_clone_mid_run": stats.get("histories_with_clone", 0),
+            "detector_constructor_histogram": ctor_hist,
             "steps_outside_exact_between_but_within_tolerance": stats.get("inexact_between", 0),
             "nonfinite_steps_skipped_by_verdict": stats.get("nonfinite", 0),
-            "floatbase_cases": fb_n, "floatbase_disagreements": len(fb_bad)}
+            "floatbase_cases": fb_n, "floatbase_disagreements": len(fb_bad),
+            "source_regions_never_entered": cov_regions_util.regions_for_evidence(PROP, "No exclusions (lib/props/c19_cov_exclusions.json is empty).")}
     samples = [it["line"][:400] for it in (rect[:1] + rect[len(rect) // 2:len(rect) // 2 + 1] + env[:1] + env[-1:])]
     n_eval = rect_evals + stats.get("steps", 0)
     return finish(rep, info, n_eval, len(nontriv), dist, samples, bad, len(items))
